@@ -35,6 +35,8 @@ package crdt
 //@   modifies *c.Mast
 //@   ensures stored: imp(err == nil, has(T(*c.Mast), akey(key)) && T(*c.Mast)[akey(key)] == updated(old(has(T(*c.Mast), akey(key))), old(T(*c.Mast)[akey(key)]), crdt.Value{ModEpochNanos: wrap64(ns(when)), TombstoneSinceEpochNanos: wrap64(ns(when))}, srcOf(c)))
 //@   ensures others: forall a int :: imp(err == nil && a != akey(key), has(T(*c.Mast), a) == old(has(T(*c.Mast), a)) && T(*c.Mast)[a] == old(T(*c.Mast)[a]))
+// consequence of stored, for callers that only need "it is a tombstone now": a live entry (or none) becomes a tombstone stamped with the given time
+//@   ensures buried: imp(err == nil && wrap64(ns(when)) != 0 && !(old(has(T(*c.Mast), akey(key))) && old(tomb(T(*c.Mast)[akey(key)]))), tomb(T(*c.Mast)[akey(key)]) && T(*c.Mast)[akey(key)].TombstoneSinceEpochNanos == wrap64(ns(when)))
 
 // Get: a tombstone makes the key absent, whatever its stamp.
 //@ func (*Tree).Get
